@@ -124,6 +124,9 @@ Scheme(https) == IF https THEN "https" ELSE "http"
 HashTail(hc) == LET l == LowerAll(hc) IN Flat(SubSeq(l, 1, 2)) \o "/" \o Flat(SubSeq(l, 3, 4)) \o "/" \o Flat(l)
 UrlOf(server, pc, ct, hc, https) ==
   Scheme(https) \o "://" \o server \o "/" \o Flat(TrimSlashes(pc)) \o "/" \o ct \o "/" \o HashTail(hc)
+UrlTail(server, pc, ct, tail, https) == Scheme(https) \o "://" \o server \o "/" \o Flat(TrimSlashes(pc)) \o "/" \o ct \o "/" \o tail
+\* the fixed query of the observation block, with the hash part of its URL computed once
+UqPrep(uq) == [server |-> uq.server, ct |-> uq.ct, https |-> uq.https, tail |-> HashTail(uq.hc)]
 PcfgUrlOf(server, hc, https) == Scheme(https) \o "://" \o server \o "/tpr/configs/data/" \o HashTail(hc)
 ContentTypes == {"config", "data", "patch"}
 
@@ -210,7 +213,7 @@ ObsEntry(st, U, uq, o, p) ==      \* [ok, en]
                   en |-> en]
   ELSE
     LET some == <<en.path>>
-        url  == <<UrlOf(uq.server, en.pc, uq.ct, uq.hc, uq.https)>>
+        url  == <<UrlTail(uq.server, en.pc, uq.ct, uq.tail, uq.https)>>
         flags == EntFlag(o, p)
         shape == /\ o.gnc[i] = some /\ o.get[i] \in {some, <<>>} /\ o.gb[i] \in {some, <<>>} /\ o.url[i] \in {url, <<>>}
                  /\ flags \in {{0}, {1}}
@@ -220,15 +223,18 @@ ObsEntry(st, U, uq, o, p) ==      \* [ok, en]
         e2 == IF stale THEN SeenExp(e1, T, o.o1) ELSE e1
     IN [ok |-> shape /\ e2.lo <= e2.hi, en |-> IF e2.lo <= e2.hi THEN e2 ELSE [e2 EXCEPT !.lo = e2.hi]]
 
+\* (TLC applies a function expression lazily, every time it is used: results that are used more than once are built as tuples)
+RECURSIVE ObsEntries(_, _, _, _, _)
+ObsEntries(st, U, uq, o, i) == IF i > Len(U) THEN <<>> ELSE <<ObsEntry(st, U, uq, o, U[i])>> \o ObsEntries(st, U, uq, o, i + 1)
 ObsJudge(st, U, uq, o) ==          \* [ok, st]
   IF "panic" \in DOMAIN o THEN [ok |-> FALSE, st |-> st]
   ELSE
-  LET per == [p \in SeqRange(U) |-> ObsEntry(st, U, uq, o, p)]
-      m2  == [p \in DOMAIN st.m |-> per[p].en]
+  LET per == ObsEntries(st, U, uq, o, 1)
+      dom == {i \in 1..Len(U) : U[i] \in DOMAIN st.m}
       T   == st.ttl
       N   == Cardinality(DOMAIN st.m)
-      nMF == Cardinality({p \in DOMAIN m2 : MustFreshAt(m2[p], T, o.o1)})
-      nME == Cardinality({p \in DOMAIN m2 : MustExpAt(m2[p], T, o.o0)})
+      nMF == Cardinality({i \in dom : MustFreshAt(per[i].en, T, o.o1)})
+      nME == Cardinality({i \in dom : MustExpAt(per[i].en, T, o.o0)})
       inb(v) == nMF <= v /\ v <= N - nME
       books == /\ o.len = N /\ o.empty = (N = 0) /\ Len(o.ents) = N
                /\ {o.ents[i][1] : i \in 1..Len(o.ents)} = DOMAIN st.m
@@ -236,7 +242,7 @@ ObsJudge(st, U, uq, o) ==          \* [ok, st]
                /\ o.stats[1] = N /\ o.stats[2] + o.stats[3] = N /\ inb(o.stats[2]) /\ inb(o.vlen)
                /\ o.stats[4] = (IF TtlOn(T) THEN 1 ELSE 0) /\ o.stats[5] = (IF st.val THEN 1 ELSE 0)
                /\ (o.hasv => N - nME > 0) /\ (~o.hasv => nMF = 0)
-  IN [ok |-> books /\ \A p \in SeqRange(U) : per[p].ok, st |-> [st EXCEPT !.m = m2]]
+  IN [ok |-> books /\ \A i \in 1..Len(U) : per[i].ok, st |-> [st EXCEPT !.m = [p \in DOMAIN st.m |-> per[Idx(U, p)].en]]]
 
 \* the map an observation shows (resynchronisation after a step nothing explains)
 Resync(st, U, e) ==
@@ -247,39 +253,45 @@ Resync(st, U, e) ==
                             IF p \in DOMAIN st.m /\ st.m[p].path = v THEN st.m[p] ELSE Entry(v, <<>>, e.t0, e.t1)]]
 
 \* judge of one cache event: [ok, devs, st]
+\* per position of U the options compatible with what get_without_ttl_check shows afterwards
+RECURSIVE OptsShown(_, _, _, _)
+OptsShown(st, U, e, i) ==
+  IF i > Len(U) THEN <<>>
+  ELSE <<{x \in OptsOf(st, e, U[i]) : e.obs.gnc[i] = (IF x.en.abs THEN <<>> ELSE <<x.en.path>>)}>> \o OptsShown(st, U, e, i + 1)
+\* all tuples that take one option per position
+RECURSIVE TuplesOf(_, _)
+TuplesOf(sets, i) == IF i > Len(sets) THEN {<<>>} ELSE {<<x>> \o r : x \in sets[i], r \in TuplesOf(sets, i + 1)}
+RECURSIVE HullSeq(_, _, _, _)
+HullSeq(f0, pick, n, i) ==
+  IF i > n THEN <<>>
+  ELSE LET los == {f[i].en.lo : f \in pick}  his == {f[i].en.hi : f \in pick}
+       IN <<[f0[i].en EXCEPT !.lo = CHOOSE x \in los : \A y \in los : x <= y, !.hi = CHOOSE x \in his : \A y \in his : x >= y]>>
+          \o HullSeq(f0, pick, n, i + 1)
 PcJudge(st, U, uq, e) ==
   IF e.res.k = "panic" \/ "panic" \in DOMAIN e.obs THEN [ok |-> FALSE, devs |-> {}, st |-> Resync(st, U, e)]
   ELSE
   LET st1 == CASE e.op = "ttl" -> [st EXCEPT !.ttl = e.ttl]
                [] e.op = "val" -> [st EXCEPT !.val = e.b]
                [] OTHER        -> st
-      P    == SeqRange(U)
-      o    == e.obs
-      \* an option is compatible with what get_without_ttl_check shows afterwards
-      shows(p, x) == o.gnc[Idx(U, p)] = (IF x.en.abs THEN <<>> ELSE <<x.en.path>>)
-      opts == [p \in P |-> {x \in OptsOf(st, e, p) : shows(p, x)}]
-      all  == UNION {opts[p] : p \in P}
-      cands == {f \in [P -> all] : \A p \in P : f[p] \in opts[p]}
-      nrm(f) == Cardinality({p \in P : f[p].rm = 1})
-      good == {f \in cands : ResOkFor(st, e, nrm(f))}
-      clean == {f \in good : \A p \in P : f[p].dev = ""}
-      pick == IF clean # {} THEN clean ELSE good
+      n     == Len(U)
+      cands == TuplesOf(OptsShown(st, U, e, 1), 1)
+      nrm(f) == Cardinality({i \in 1..n : f[i].rm = 1})
+      good  == {f \in cands : ResOkFor(st, e, nrm(f))}
+      clean == {f \in good : \A i \in 1..n : f[i].dev = ""}
+      pick  == IF clean # {} THEN clean ELSE good
   IN
   IF pick = {} THEN [ok |-> FALSE, devs |-> {}, st |-> Resync(st1, U, e)]
   ELSE
     LET f0 == CHOOSE f \in pick : TRUE
-        present == {p \in P : ~f0[p].en.abs}
+        present == {i \in 1..n : ~f0[i].en.abs}
         \* several explanations: the hull of their intervals
-        merged == [p \in present |->
-                     LET los == {f[p].en.lo : f \in pick}  his == {f[p].en.hi : f \in pick}
-                     IN [f0[p].en EXCEPT !.lo = CHOOSE x \in los : \A y \in los : x <= y,
-                                         !.hi = CHOOSE x \in his : \A y \in his : x >= y]]
-        st2 == [st1 EXCEPT !.m = merged]
-        oj  == ObsJudge(st2, U, uq, o)
-    IN [ok |-> oj.ok, devs |-> {f0[p].dev : p \in P} \ {""}, st |-> oj.st]
+        hulls == HullSeq(f0, pick, n, 1)
+        st2 == [st1 EXCEPT !.m = [p \in {U[i] : i \in present} |-> hulls[Idx(U, p)]]]
+        oj  == ObsJudge(st2, U, uq, e.obs)
+    IN [ok |-> oj.ok, devs |-> {f0[i].dev : i \in 1..n} \ {""}, st |-> oj.st]
 
 \* the first event of a run: the constructor
 PcJudgeNew(e) ==
   IF e.res.k = "panic" THEN [ok |-> FALSE, devs |-> {}, st |-> PcSt0(e.cfg)]
-  ELSE LET oj == ObsJudge(PcSt0(e.cfg), e.U, e.uq, e.obs) IN [ok |-> oj.ok, devs |-> {}, st |-> oj.st]
+  ELSE LET oj == ObsJudge(PcSt0(e.cfg), e.U, UqPrep(e.uq), e.obs) IN [ok |-> oj.ok, devs |-> {}, st |-> oj.st]
 =============================================================================
